@@ -19,6 +19,10 @@ pub enum Op {
     SetNested(i64),
     /// set_nested with a one-segment path: writes the top-level key
     SetNestedTop(&'static str, i64),
+    /// the key `d` becomes an object that contains an object: {inner: {g: 1}}
+    SetDeepObj,
+    /// set_nested with a three-segment path: d.inner.g
+    SetNestedDeep(i64),
     Remove(&'static str),
 }
 
@@ -37,12 +41,21 @@ fn obj(v: i64) -> Value {
     Value::Object(m)
 }
 
+fn deep_obj(g: i64) -> Value {
+    let mut inner = std::collections::HashMap::new();
+    inner.insert("g".to_string(), Value::Integer(g));
+    let mut outer = std::collections::HashMap::new();
+    outer.insert("inner".to_string(), Value::Object(inner));
+    Value::Object(outer)
+}
+
 pub fn alphabet(level: usize) -> Vec<Op> {
     use Op::*;
     match level {
         0 => vec![Begin, Commit, Rollback, Set("k1", 1), Set("k1", 2), Remove("k1")],
         1 => vec![Begin, Commit, Rollback, Set("k1", 1), Set("k1", 2), Set("k2", 1), SetObj, SetNested(2), Remove("k1"), Remove("o")],
         3 => vec![Begin, Commit, Rollback, Set("k1", 1), SetNestedTop("k1", 2), SetNestedTop("k2", 1), Remove("k1")],
+        4 => vec![Begin, Commit, Rollback, SetDeepObj, SetNestedDeep(2), SetNestedDeep(3), Remove("d"), Set("d", 1)],
         _ => vec![Begin, Commit, Rollback, Set("k1", 1), Set("k1", 2), Set("k2", 1), SetObj, SetNested(1), SetNested(2), SetNestedTop("k1", 3), Remove("k1"), Remove("k2"), Remove("o")],
     }
 }
@@ -114,6 +127,23 @@ impl System for Sys {
                 }
                 self.model.insert(k.to_string(), Value::Integer(*v));
             }
+            Op::SetDeepObj => {
+                let v = deep_obj(1);
+                self.f.set("d", v.clone());
+                self.model.insert("d".to_string(), v);
+            }
+            Op::SetNestedDeep(v) => {
+                let r = self.f.set_nested("d.inner.g", Value::Integer(*v));
+                let is_deep = matches!(self.model.get("d"), Some(Value::Object(m)) if matches!(m.get("inner"), Some(Value::Object(_))));
+                if is_deep {
+                    if r.is_err() {
+                        return Err(Mismatch::new("set_nested_failed", format!("set_nested(d.inner.g) failed on an existing nested object: {:?}", r)));
+                    }
+                    self.model.insert("d".to_string(), deep_obj(*v));
+                } else if r.is_ok() {
+                    return Err(Mismatch::new("set_nested_succeeded_without_object", "set_nested(d.inner.g) succeeded although d.inner is not an object".to_string()));
+                }
+            }
             Op::Remove(k) => {
                 let got = self.f.remove(k);
                 let exp = self.model.remove(*k);
@@ -127,7 +157,7 @@ impl System for Sys {
             let class = if matches!(op, Op::Rollback) { "rollback_did_not_restore" } else { "facts_differ_from_model" };
             return Err(Mismatch::tagged(class, format!("after {:?}: facts {:?}, expected {:?}", op, got, self.model), &tags));
         }
-        for k in ["k1", "k2", "o"] {
+        for k in ["k1", "k2", "o", "d"] {
             if self.f.get(k) != self.model.get(k).cloned() || self.f.contains(k) != self.model.contains_key(k) {
                 return Err(Mismatch::new("facts_differ_from_model", format!("get/contains({}) disagree with get_all_facts", k)));
             }
@@ -141,7 +171,8 @@ impl System for Sys {
             Op::Rollback => "rollback",
             Op::Set(..) => "set",
             Op::SetObj => "set_object",
-            Op::SetNested(_) | Op::SetNestedTop(..) => "set_nested",
+            Op::SetNested(_) | Op::SetNestedTop(..) | Op::SetNestedDeep(_) => "set_nested",
+            Op::SetDeepObj => "set_object",
             Op::Remove(_) => "remove",
         }
         .to_string()
@@ -153,8 +184,8 @@ impl System for Sys {
 
 pub fn run_frames(opts: &Opts) -> Vec<Report> {
     let plan: Vec<(&str, usize, usize)> = match opts.tier {
-        Tier::Quick => vec![("undo_full_len6", 2, 6), ("undo_mid_len7", 1, 7), ("undo_small_len9", 0, 9), ("undo_top_level_set_nested_len8", 3, 8)],
-        Tier::Thorough => vec![("undo_full_len7", 2, 7), ("undo_mid_len8", 1, 8), ("undo_small_len10", 0, 10), ("undo_top_level_set_nested_len10", 3, 10)],
+        Tier::Quick => vec![("undo_full_len6", 2, 6), ("undo_mid_len7", 1, 7), ("undo_small_len9", 0, 9), ("undo_top_level_set_nested_len8", 3, 8), ("undo_three_segment_set_nested_len7", 4, 7)],
+        Tier::Thorough => vec![("undo_full_len7", 2, 7), ("undo_mid_len8", 1, 8), ("undo_small_len10", 0, 10), ("undo_top_level_set_nested_len10", 3, 10), ("undo_three_segment_set_nested_len9", 4, 9)],
     };
     let mut out = vec![];
     for (name, level, depth) in plan {
